@@ -5,6 +5,7 @@ package mimetype
 import (
 	ejson "encoding/json"
 	"fmt"
+	"strings"
 	"testing"
 
 	"github.com/gabriel-vasile/mimetype/internal/magic"
@@ -201,6 +202,47 @@ func TestVerif_C08(t *testing.T) {
 				return c08Case{Doc: vfB(jGenDoc(t, rapid.IntRange(1, 6).Draw(t, "depth")).String())}
 			},
 			Check: c08Check,
+		})
+	}
+	if t.Failed() {
+		return
+	}
+	if vfOnlySub("large") {
+		// documents larger than the default limit: arrays/objects of many generated members
+		vfRun(t, vfSub[c08Case]{
+			Prop: "C08", Name: "large", Checks: vfN(600, 60000),
+			Gen: func(t *rapid.T) c08Case {
+				n := rapid.IntRange(20, 200).Draw(t, "members")
+				obj := rapid.Bool().Draw(t, "obj")
+				var sb strings.Builder
+				if obj {
+					sb.WriteString("{")
+				} else {
+					sb.WriteString("[")
+				}
+				for i := 0; i < n; i++ {
+					if i > 0 {
+						sb.WriteString(rapid.SampledFrom([]string{",", ", ", ",\n  ", ",\r\n"}).Draw(t, "sep"))
+					}
+					d := &jdoc{}
+					if obj {
+						d.add('s', jGenString(t))
+						d.add(':', ":")
+					}
+					jGenValue(t, d, 3)
+					sb.WriteString(d.String())
+				}
+				if obj {
+					sb.WriteString("}")
+				} else {
+					sb.WriteString("]")
+				}
+				return c08Case{Doc: vfB(sb.String())}
+			},
+			Check: c08Check,
+			Sample: func(c c08Case) any {
+				return map[string]any{"sub": "large", "len": len(c.Doc), "head": vfQ(c.Doc[:min(60, len(c.Doc))])}
+			},
 		})
 	}
 	if t.Failed() {
